@@ -25,3 +25,13 @@ Definition v_unwrap_or (o d : val) : val :=
   | VC c [] => if (c =? "None")%string then d else VStuck
   | _ => VStuck
   end.
+
+(* Option::unwrap / is_some, Iterator::next on a list of items *)
+Definition v_unwrap (o : val) : val :=
+  match o with VC c [x] => if (c =? "Some")%string then x else VC "Panic" [] | _ => VC "Panic" [] end.
+Definition v_is_some (o : val) : bool :=
+  match o with VC c [_] => (c =? "Some")%string | _ => false end.
+Definition v_next (it : val) : val :=
+  match it with VC _ (x :: _) => VC "Some" [x] | _ => VC "None" [] end.
+Definition v_rest (it : val) : val :=
+  match it with VC c (_ :: l) => VC c l | _ => it end.
